@@ -17,9 +17,9 @@ RULE = (
     "log16: all 65536 in thorough, every 16th plus +-2 around num_reserved and the maximum in quick) a 1x1 sketch with cms=c gets one add with a planted "
     "draw u in {0, P_c(1-1e-12), P_c(1+1e-12), 1-2^-53}, P_c = base^-(c-nr): below nr -> c+1 and no draw consumed; at the maximum -> unchanged, no draw; "
     "else exactly one draw consumed and c+1 iff u < P_c; decode: query(c)==c for c<=nr+1, query matches own decode to 1e-9, P_c*(value(c+1)-value(c))==1 "
-    "to 1e-9. (2) exact replay: Numba's generator seeded, refill forced, random add(key,v) sequences on collision-free keys; a Python model fed the "
+    "to 1e-9. (2) exact replay: Numba's generator seeded, refill forced, random add(key,v) / add_ngram(short key) / update(list) / update(dict) calls (incl. single adds of 65536..100000) on collision-free keys; a Python model fed the "
     "jitted np.random.rand stream must reproduce every counter and rand_ptr, and every observed batch must be the next unused 2048-slice. "
-    "(3) distribution: R replicates of N unit adds (N in {200,1000,5000}) for 4 log8 configurations; empirical CDF of the final counter within the "
+    "(3) distribution: R replicates of N unit adds (N in {200,1000,5000} for 4 configurations, plus single bulk adds of 65536, 70000 and 200000) for 4 log8 configurations; empirical CDF of the final counter within the "
     "DKW band (delta=1e-10) of the exact Markov-chain CDF; pooled refill batches and pooled entropy-seeded initial batches within the DKW band of "
     "U[0,1), all in [0,1), distinct between sketches. (4) Hypothesis machine over 2 log sketches with merges and adversarial planted draws: "
     "query(k) >= min(true,nr+1), collision-free keys with true <= nr+1 exact. Non-trivial: a case in which a draw is consumed (counter >= "
@@ -148,8 +148,34 @@ def _replay_task(arg):
             for r in range(depth):
                 used_cells[r].add(cells[r])
     nseed = int(seed % (2**31))
-    steps = [(int(rng.integers(0, len(keys))), int(rng.choice([1, 1, 2, 7, 50, 400, 1500]))) for _ in range(60)]
-    total = sum(v for _, v in steps)
+    # calls: ("add", ki, v) | ("ngram_short", ki) (len(key) <= n: one unit add) | ("list", [ki..]) | ("dict", [(ki, v)..])
+    calls = []
+    for t in range(60):
+        kind_ = rng.choice(["add", "add", "add", "ngram_short", "list", "dict"])
+        if kind_ == "add":
+            v = int(rng.choice([1, 1, 2, 7, 50, 400, 1500]))
+            if t in (17, 41) and kind == "log8":
+                v = int(rng.choice([65536, 70000, 100000]))  # bulk adds beyond 2^16 must follow the same law
+            calls.append(("add", int(rng.integers(0, len(keys))), v))
+        elif kind_ == "ngram_short":
+            calls.append(("ngram_short", int(rng.integers(0, len(keys)))))
+        elif kind_ == "list":
+            calls.append(("list", [int(x) for x in rng.integers(0, len(keys), int(rng.integers(1, 6)))]))
+        else:
+            ks = sorted(set(int(x) for x in rng.integers(0, len(keys), int(rng.integers(1, 4)))))
+            calls.append(("dict", [(k_, int(rng.choice([1, 3, 40, 300]))) for k_ in ks]))
+
+    def units(c):
+        if c[0] == "add":
+            return [(c[1], c[2])]
+        if c[0] == "ngram_short":
+            return [(c[1], 1)]
+        if c[0] == "list":
+            return [(k_, 1) for k_ in c[1]]
+        return list(c[1])
+
+    steps = calls
+    total = sum(v for c in calls for _, v in units(c))
     nb = total // 2048 + 3
     numba_seed(nseed)
     stream = numba_rand(2048 * nb).copy()
@@ -162,9 +188,17 @@ def _replay_task(arg):
     case = {"kind": kind, "max_count": mc, "num_reserved": nr, "seed": int(seed), "replay": True}
     consumed_any = False
     unexplained = 0
-    for ki, v in steps:
+    for call in steps:
         ptr0 = int(sk.rand_ptr)
-        sk.add(keys[ki], v)
+        if call[0] == "add":
+            sk.add(keys[call[1]], call[2])
+        elif call[0] == "ngram_short":
+            sk.add_ngram(keys[call[1]], len(keys[call[1]]) + int(call[1] % 2))
+        elif call[0] == "list":
+            sk.update([keys[k_] for k_ in call[1]])
+        else:
+            sk.update({keys[k_]: v_ for k_, v_ in call[1]})
+        ki, v = units(call)[0][0], sum(v_ for _, v_ in units(call))
         ptr1 = int(sk.rand_ptr)
         # --- freshness, independent of how many draws a step consumes: whenever the batch changes it
         # must become the next unused 2048-slice of the generator stream (several refills per add possible)
@@ -177,7 +211,7 @@ def _replay_task(arg):
                     found = b
                     break
             if found is None:
-                rec.violation(case, f"{kind}{(mc, nr)}: after add({keys[ki]!r},{v}) the draw batch is not an unused 2048-slice of the generator stream following slice {batch} (recycled, re-used or not replenished)", "batch-not-fresh")
+                rec.violation(case, f"{kind}{(mc, nr)}: after {call[0]} call the draw batch is not an unused 2048-slice of the generator stream following slice {batch} (recycled, re-used or not replenished)", "batch-not-fresh")
                 return rec
             refills = found - batch
             batch = found
@@ -189,25 +223,34 @@ def _replay_task(arg):
         if ptr1 > 2048 or d < 0:
             rec.violation(case, f"{kind}{(mc, nr)}: rand_ptr {ptr1} out of range", "rand-ptr-range")
             return rec
-        got = min_counter(sk, cfg, keys[ki])
-        # --- the counter must be what the law yields for exactly the draws that were consumed.  At
+        got = [min_counter(sk, cfg, keys[k_]) for k_ in range(len(keys))]
+        # --- the counters must be what the law yields for exactly the draws that were consumed.  At
         # c == num_reserved the step is certain, so a draw may or may not be spent there: both explained.
-        cA, uA = models.log_counter_model(counters[ki], nr, umax, base, iter(stream[pos:]), v, True)
-        cB, uB = models.log_counter_model(counters[ki], nr, umax, base, iter(stream[pos:]), v, False)
+        def model(boundary):
+            cs = list(counters)
+            used = 0
+            for k_, v_ in units(call):
+                cs[k_], u_ = models.log_counter_model(cs[k_], nr, umax, base, iter(stream[pos + used :]), v_, boundary)
+                used += u_
+            return cs, used
+
+        cA, uA = model(True)
+        cB, uB = model(False)
+        what = f"{call[0]} call {call[1:]}"
         if d == uA and got == cA:
             pass
         elif d == uB and got == cB:
             pass
         elif d in (uA, uB):
             want = cA if d == uA else cB
-            rec.violation(case, f"{kind}{(mc, nr)}: add({keys[ki]!r},{v}) from counter {counters[ki]} consumed {d} draws of Numba's stream and ended at {got}; the update law applied to exactly those draws gives {want}", "replay-mismatch")
+            rec.violation(case, f"{kind}{(mc, nr)}: {what} from counters {counters} consumed {d} draws of Numba's stream and ended at {got}; the update law applied to exactly those draws gives {want}", "replay-mismatch")
             return rec
         elif d < uB:
-            rec.violation(case, f"{kind}{(mc, nr)}: add({keys[ki]!r},{v}) from counter {counters[ki]} consumed only {d} draws for at least {uB} probabilistic decisions", "no-draw-consumed")
+            rec.violation(case, f"{kind}{(mc, nr)}: {what} from counters {counters} consumed only {d} draws for at least {uB} probabilistic decisions", "no-draw-consumed")
             return rec
         else:
             unexplained += 1  # another consumption pattern: law checked by sub-checks 1 and 3 only
-        counters[ki] = got
+        counters = got
         pos += d
         consumed_any = consumed_any or d > 0
     batches_seen = batch + 1
@@ -316,7 +359,7 @@ class LowerBound:
     def __call__(self, touched, step):
         w = self.w
         cfg = w.cfg
-        for i in sorted(touched):
+        for i in range(w.n):  # all sketches, not only the touched one
             sk = w.sk[i]
             nr = int(sk.num_reserved)
             true = w.true[i]
@@ -372,6 +415,9 @@ def run(tier, seed, rec):
         for N in (200, 1000, 5000):
             dj.append((mc, nr, N, R, common.derive_seed(seed, "C06-dist", t, N), False))
     dj.append((CEIL, 15, 300, 400 if quick else 4000, common.derive_seed(seed, "C06-dist-unit"), True))
+    # bulk adds beyond 2^16 and 2^17 in one call follow the same chain
+    for t, (mc, nr, N) in enumerate([(CEIL, 15, 70000), (2**63, 0, 200000), (10**7, 100, 65536)]):
+        dj.append((mc, nr, N, 1500 if quick else 15000, common.derive_seed(seed, "C06-dist-big", t), False))
     common.pool_merge(_dist_task, dj, rec)
     common.pool_merge(_uniform_task, [(common.derive_seed(seed, "C06-unif"), 200 if quick else 2000)], rec)
     n_ex, steps, shards = (60, 40, 16) if quick else (800, 50, 32)
